@@ -169,6 +169,7 @@ def contracts():
 def setup_plumbing(world):
     setup(world)
     world.opaque_sig('create_child_context', alloc=True, log=True)
+    world.opaque_sig('sub', log=True)
     world.callee_contract(M + '_publish_match')
 
     def finditer(recv, args, kw, it):
@@ -184,6 +185,26 @@ def setup_plumbing(world):
         world.trusted_used.add('re pattern.finditer() (T-re)')
         return SSeq(n, arr, TVal, kind='tuple')
     world.opaque_sigs['finditer'] = finditer
+
+
+class _tv:
+    is_factory = True
+
+    def __init__(self, base):
+        self.base = base
+
+    def __call__(self, name, path):
+        return TVal.fresh(self.base)
+
+
+class _fn:
+    is_factory = True
+
+    def __init__(self, base):
+        self.base = base
+
+    def __call__(self, name, path):
+        return TFunc(1).fresh(self.base)
 
 
 def plumbing_contracts():
@@ -232,6 +253,30 @@ def plumbing_contracts():
             '%s[0][1][0] == %s and %s[0][1][1] == regexp.search(string) and '
             'result == selector(%s))' % (PM, PM, CHILD % '0', PM,
                                           CHILD % '0')],
+        serves=('C19', 'C04'), native=False))
+    # replaceBy: the substitution is driven by `regexp.sub` with the
+    # function's own callback, the subject and the count unchanged; the
+    # callback publishes THE match it was given where the replacement lambda
+    # can see it (a fresh child per match, or that child's parent) and
+    # returns what the lambda computes in the child
+    cs.append(Contract(
+        M + 'replace_by', name='regex.replace_by',
+        params=dict(context=TVal, regexp=TVal, string=TStr, repl=TFunc(1),
+                    count=TInt),
+        ensures=['len(calls) == 1 and calls[0][0] == "m.sub" and '
+                 'calls[0][1][0] == regexp and calls[0][1][2] == string and '
+                 'calls[0][1][3] == count and result == calls[0][2]',
+                 'calls[0][1][1] is LOCAL_repl_func'],
+        serves=('C19', 'C04'), native=False))
+    cs.append(Contract(
+        M + 'replace_by.<locals>.repl_func', name='regex.replace_by.repl_func',
+        params=dict(match=TVal),
+        env=dict(context=_tv('context'), repl=_fn('repl')),
+        ensures=['len(%s) == 1 and %s[0][1][1] == match' % (PM, PM),
+                 '%s[0][1][0] == %s or %s[0][1][0] == context' % (
+                     PM, CHILD % '0', PM),
+                 'result == repl(%s)' % (CHILD % '0'),
+                 'ncalls("m.create_child_context") == 1'],
         serves=('C19', 'C04'), native=False))
     cs.append(Contract(
         M + 'search', name='regex.search/plain',
